@@ -469,6 +469,7 @@ fn cmd_check(args: &Args) -> i32 {
         .with("harness_errors", J::Arr(harness_errors.iter().map(|s| J::str(s)).collect()));
     let assumptions: Vec<J> = [
         "the card layout and deck order used to build inputs and judge results are those documented in lib.rs and stated by C10/C14/C15/C18; they are re-derived in the harness (cardsref.rs), not read from the crate",
+        "C15 only: whitespace between text tokens means Unicode White_Space (Rust's char::is_whitespace, which the crate's split_whitespace uses); a card token is one that starts with a rank symbol followed by a suit symbol (C12)",
         "Copy assignment of a container is a bitwise copy (language guarantee)",
         "the harness's own bookkeeping (array model / membership model, a few dozen lines of plain loops) is correct; it is exercised by the sensitivity mutants, which must fail for the right reason",
         "sampled, not exhaustive: a clean batch is evidence, not proof",
